@@ -70,7 +70,14 @@ fn main() -> Result<(), String> {
 
     // TODO: should introduce a config object to gather options on the CLI etc.
     let max_drift_ppb = match args.max_drift_rate {
-        Some(rate) => rate * 1000,
+        // The rate is given in ppm but published in ppb. Refuse to start rather than wrap around
+        // to a smaller rate, which would make every client under-estimate the clock error growth.
+        Some(rate) => rate.checked_mul(1000).ok_or_else(|| {
+            format!(
+                "The max drift rate of {} ppm is too large to be expressed in ppb",
+                rate
+            )
+        })?,
         None => {
             warn!("Using the default max drift rate of 1PPM, which is likely wrong. \
                   Update chrony configuration and clockbound to a value that matches your hardware.");
